@@ -10,8 +10,10 @@ import (
 	"encoding/json"
 	"fmt"
 	"os"
+	"reflect"
 	"strconv"
 	"sync"
+	"time"
 )
 
 type Draw struct {
@@ -184,7 +186,14 @@ func LogStr(msg string, v string) { Log(fmt.Sprintf("%s %q", msg, v)) }
 // scheduling intrinsics: natively no-ops (replays of schedules use their own gates)
 func Yield()                       {}
 func SetTimers(on bool)            {}
-func RunSpawned(match string) int  { return 0 }
+func RunSpawned(match string) int {
+	if d, ok := spawnWait[match]; ok {
+		time.Sleep(d) // natively the goroutines run by themselves; give their timers time to elapse
+	} else {
+		time.Sleep(50 * time.Millisecond)
+	}
+	return 0
+}
 func DropSpawned(match string) int { return 0 }
 func NumParked(match string) int   { return 0 }
 func WaitQuiescent()               {}
@@ -200,3 +209,31 @@ func MutexHeld(m *sync.Mutex) bool {
 func ProvKind(b []byte) string          { return "" }
 func ProvStr(b []byte, path string) string { return "<none>" }
 func StartAccessLog()                   {}
+
+// Fact records a concrete fact (engine: aggregated over all paths; natively: trace line).
+func Fact(tag string, a, b, c int) { Log(fmt.Sprintf("fact %s:%d:%d:%d", tag, a, b, c)) }
+
+// JSONStr is only meaningful inside the engine (see harness helpers for the native twin).
+func JSONStr(typ, path string) string { return "" }
+func JSONState(typ, path string) int  { return 0 }
+
+var spawnWait = map[string]time.Duration{"CloseConnection$1": 700 * time.Millisecond, "handleState$1": 1300 * time.Millisecond}
+
+func field(p any, name string) reflect.Value {
+	v := reflect.ValueOf(p)
+	for v.Kind() == reflect.Ptr || v.Kind() == reflect.Interface {
+		v = v.Elem()
+	}
+	return v.FieldByName(name)
+}
+
+// FieldStr / FieldInt / FieldBool read an (unexported) field of the struct p points to.
+func FieldStr(p any, name string) string { return field(p, name).String() }
+func FieldInt(p any, name string) int {
+	f := field(p, name)
+	if f.CanInt() {
+		return int(f.Int())
+	}
+	return int(f.Uint())
+}
+func FieldBool(p any, name string) bool { return field(p, name).Bool() }
